@@ -1,2 +1,23 @@
 import MudProof.Properties.C02
-#print axioms Mud.C02.placeholder_true
+open Mud.C02
+#print axioms W_hermitian
+#print axioms propagatorU_eq
+#print axioms propagatorU_unitary
+#print axioms expStep_eq
+#print axioms conj_hermitian
+#print axioms conj_trace
+#print axioms conj_posSemidef
+#print axioms conj_idempotent
+#print axioms populations_unit_interval
+#print axioms expStep_valid
+#print axioms exp_history_invariant
+#print axioms rk4_invariant
+#print axioms rk4_functional
+#print axioms commutator_traceless
+#print axioms commutator_hermitian
+#print axioms rk4Ydot_eq
+#print axioms hiMat_hermitian
+#print axioms rk4_transport
+#print axioms rk4_trace
+#print axioms rk4_hermitian
+#print axioms collapse_pure
